@@ -46,6 +46,6 @@ PROP = {
         {"name": "main", "post": _post},
         # overflow-checks + debug-assertions build: what `cargo build` / `cargo test` give a user by default
         {"name": "chk", "variant": "chk", "post": _post, "tiers": ("thorough",),
-         "args": ["cases=1000000", "codec_cases=1500000", "query_cases=400000", "detbudget_s=60"], "timeout": 4 * 3600},
+         "args": ["cases=300000", "codec_cases=250000", "query_cases=150000", "detbudget_s=15"], "timeout": 4 * 3600},
     ],
 }
